@@ -17,7 +17,7 @@ oracle : independent of the model: structural recursion over the program tree (i
          in a fresh empty Context; unknown code => the operator / method must raise.
 """
 from __future__ import annotations
-import asyncio, contextvars, operator, threading, itertools, json
+import sys, asyncio, contextvars, operator, threading, itertools, json
 import numpy as np
 from . import core
 from .core import err_kind
@@ -289,6 +289,8 @@ def flatten(prog, kinds):
                 out.append("A:" + op + (":" + it[4] if len(it) > 4 else ""))
             elif k == "call": out.append("Q:%s:%s" % (it[1], it[4]))
             elif k == "spawn": out.append(("T:" if kinds[it[1]] in ("thread", "loop") else "K:") + str(it[1]))
+            elif k == "gopen_shared": out.append("E:" + it[2])
+            elif k == "gclose_foreign": out.append("F")
             elif k == "gopen": out.append("E:" + it[1])
             elif k == "gcloseat": out.append("N:%d" % it[1])
             elif k == "build": out.append("B:%d:%s" % (it[1], it[2]))
@@ -297,9 +299,16 @@ def flatten(prog, kinds):
             elif k == "mstack":
                 out.extend("M:%d" % m for m in it[1]); go(it[2]); out.extend("X" for _ in it[1])
             else:
-                out.append("E:" + it[1]); go(it[3]); out.append(EXIT_TOKEN[it[2]])
+                out.append("E:" + it[1]); go(it[3])
+                n = count_shared(it[3])     # generators handed to another actor are still suspended inside this block:
+                out.append(EXIT_TOKEN[it[2]] if n == 0 else "N:%d" % n)   # its own token is n levels down
     go(prog)
     return out
+
+
+def count_shared(items):
+    return sum((1 if it[0] == "gopen_shared" else 0) + (count_shared(body_of(it)) if body_of(it) is not None else 0)
+               for it in items)
 
 
 def manager_codes(world):
@@ -337,9 +346,14 @@ def expectation(world):
                 elif k == "spawn":
                     out.append((cur, {"ev": "spawn", "depth": depth}))
                     init[it[1]] = "f" if kinds[it[1]] in ("thread", "loop") else cur
-                elif k in ("gopen", "gcloseat"):
-                    lifo[0] = False
+                elif k in ("gopen", "gcloseat", "gopen_shared"):
+                    lifo[0] = False         # (the starter of a shared generator is never restored: tie only)
                     out.append((None, {"ev": k}))
+                    if k == "gopen_shared":
+                        cur = it[2]         # the suspended generator's block is open in the starter: a task created
+                                            # now starts from this value
+                elif k == "gclose_foreign": # the CLOSER's own setting must survive, whatever close() does
+                    out.append((cur, {"ev": "foreign-close", "depth": depth}))
                 elif k == "build":          # building a manager changes nothing, whatever is in force
                     out.append((cur, {"ev": "build", "depth": depth}))
                 elif k == "mblock":         # inside: the code given when it was built; after: the value at ENTRY
@@ -381,6 +395,7 @@ class Run:
         self.log = []
         self.crash = None
         self.abort = False
+        self.shared = {}        # generators suspended inside a block, handed from one actor to another
         self.mgrs = {}          # manager objects built so far: ordinary objects, shared by all threads / tasks
         self.actors = {a["id"]: Actor(self, a) for a in world["actors"]}
 
@@ -437,6 +452,30 @@ class Actor:
 
     def arith(self, it):
         return self.run.pool.bare(it[1], it[2], it[3])
+
+    def foreign_close(self, gid, how):
+        """close / exhaust / throw into / drop the last reference of a generator another context started.  On the
+        code as it is `reset(token)` raises ValueError here; whatever is raised is swallowed — what counts is the
+        closer's own setting afterwards"""
+        g = self.run.shared.pop(gid)
+        try:
+            if how == "close":
+                g.close()
+            elif how == "throw":
+                g.throw(Boom())
+            elif how == "exhaust":
+                for _ in g:
+                    pass
+            else:                       # finalised by reference counting in this thread; an exception raised by
+                hook = sys.unraisablehook   # the finaliser is reported through sys.unraisablehook, not raised
+                sys.unraisablehook = lambda *a, **k: None
+                try:
+                    del g
+                finally:
+                    sys.unraisablehook = hook
+        except BaseException as e:      # noqa
+            if isinstance(e, Abort):
+                raise
 
     def gen_block(self, code):
         with self.dep(code):
@@ -495,6 +534,10 @@ class Actor:
                 self.turn(); g = self.gen_block(PYVAL[it[1]]); next(g); self.gens.append(g); self.obs()
             elif k == "gcloseat":
                 self.turn(); g = self.gens.pop(len(self.gens) - 1 - it[1]); g.close(); self.obs()
+            elif k == "gopen_shared":       # a generator suspended inside its block, handed to another thread / task
+                self.turn(); g = self.gen_block(PYVAL[it[2]]); next(g); self.run.shared[it[1]] = g; self.obs()
+            elif k == "gclose_foreign":     # … which closes it (early return) from ITS context
+                self.turn(); self.foreign_close(it[1], it[2] if len(it) > 2 else "close"); self.obs()
             elif k == "build":
                 self.turn(); self.run.mgrs[it[1]] = self.dep(PYVAL[it[2]]); self.obs()
             elif k == "mblock":
@@ -697,6 +740,10 @@ class Actor:
                 await self.aturn(); g = self.gen_block(PYVAL[it[1]]); next(g); self.gens.append(g); self.obs()
             elif k == "gcloseat":
                 await self.aturn(); g = self.gens.pop(len(self.gens) - 1 - it[1]); g.close(); self.obs()
+            elif k == "gopen_shared":
+                await self.aturn(); g = self.gen_block(PYVAL[it[2]]); next(g); self.run.shared[it[1]] = g; self.obs()
+            elif k == "gclose_foreign":
+                await self.aturn(); self.foreign_close(it[1], it[2] if len(it) > 2 else "close"); self.obs()
             elif k == "build":
                 await self.aturn(); self.run.mgrs[it[1]] = self.dep(PYVAL[it[2]]); self.obs()
             elif k == "mblock":
@@ -1161,11 +1208,12 @@ def check_run(ctx, pool, stream, world, schedule, seqs, exp, log, crash, reply):
             continue                      # non-LIFO generator histories are outside the property (tie only)
         got = tok_of(val)
         if got != ecode:
-            kind = {"enter": "inside", "leave": "restore"}.get(d["ev"], "stale")
+            kind = {"enter": "inside", "leave": "restore", "foreign-close": "foreign-close"}.get(d["ev"], "stale")
             feat = {"call": "dependency()", "kind": kind, "how": d.get("how", ""), "actor_kind": kinds[a],
                     "actors": len(kinds), "depth": d.get("depth", 0), "expected": ecode, "got": got}
             what = {"inside": f"inside `with dependency({PYVAL[ecode]!r})` get_current_dependency() returned {val!r}",
                     "restore": f"after leaving a block ({d.get('how')}) the setting is {val!r}, before the block it was {PYVAL[ecode]!r}",
+                    "foreign-close": f"after closing a generator that another thread/task started inside its block, the closer's own setting is {val!r}; it was {PYVAL[ecode]!r}",
                     "stale": f"{d['ev']} in actor {a} ({kinds[a]}) observed {val!r}, its own history gives {PYVAL[ecode]!r}"}[kind]
             ctx.fail(feat, dict(case, actor=a, event_index=j), what)
             break
@@ -1264,8 +1312,8 @@ def run(ctx: core.Check):
         set_prop(rng, prog)
         add_world("nest", {"actors": [{"id": 0, "kind": "thread" if sync else "loop", "parent": None, "prog": prog}]}, 1)
     # 4. interleavings
-    n_worlds = ctx.scale(135, 500)
-    cap = ctx.scale(36, 80)
+    n_worlds = ctx.scale(100, 500)
+    cap = ctx.scale(30, 80)
     for wi in range(n_worlds):
         stream = ["threads", "tasks", "mixed"][wi % 3]
         shape = rng.choice(SHAPES[stream])
@@ -1364,6 +1412,22 @@ def run(ctx: core.Check):
                         prog.append(["call", op, xi, yi, unk[k % len(unk)]])
                     add_world("explicit-in-block", one("thread" if k % 4 else "loop", prog), 1)
 
+    # 10. a generator suspended inside its block is started by one thread / task and closed (close, throw, exhausted,
+    #     last reference dropped) by ANOTHER one that is inside its own block: the closer's setting must survive
+    k = 0
+    for (pk, ck) in [("thread", "thread"), ("loop", "task"), ("loop", "tothread"), ("thread", "loop")]:
+        for a_, d_, c_ in itertools.product(codes5, ["p", "o", "i", "u0"], codes5):
+            for how in (["close", "throw", "exhaust", "drop"] if ctx.tier == "thorough" else [["close", "throw", "exhaust", "drop"][k % 4]]):
+                k += 1
+                if d_ == c_ or (ctx.tier != "thorough" and k % 2):
+                    continue
+                xi, yi = pool.pairs[k % len(pool.pairs)]
+                parent = [["block", a_, "exit", [["gopen_shared", 0, d_], ["spawn", 1], ["get"]], False], ["get"]]
+                child = [["get"], ["block", c_, SYNC_HOWS[k % len(SYNC_HOWS)],
+                                   [["get"], ["gclose_foreign", 0, how], ["get"], ["arith", BARE[k % 5], xi, yi]], False], ["get"]]
+                add_world("foreign-close", {"actors": [{"id": 0, "kind": pk, "parent": None, "prog": parent},
+                                                       {"id": 1, "kind": ck, "parent": 0, "prog": child}]}, ctx.scale(2, 6))
+
     replies = core.model_batch("C16", [wire(s, seqs) for (_, _, s, seqs, _) in jobs])
     for (stream, world, s, seqs, exp), rep in zip(jobs, replies):
         nontriv = any(e not in (None, "f") for a in exp for e, _ in exp[a]) or stream == "nonlifo"
@@ -1410,6 +1474,10 @@ def run(ctx: core.Check):
             ctx.fail({"call": "method", "kind": "known-fails", "op": op, "code": code, "err": impl[1]},
                      {"stream": "dispatch", "op": op, "code": code, "x": pool.desc[xi], "y": pool.desc[yi]},
                      f"explicit `{op}` with dependency {code!r} raised {impl[1]} on positive p-boxes")
+    # (P) warnings turned into errors and numpy FP errors raised: blocks entered, arithmetic done, blocks left —
+    #     either the same value as under the default settings or an exception; the setting in force before the
+    #     block is in force again in every case, and what follows is unaffected
+    escalated(ctx, pool)
     # (L) copied / deep-copied / pickled operands behave like the originals inside a block; a result used as operand
     import copy, pickle
     C, P, O = _repo()
@@ -1458,6 +1526,71 @@ def run(ctx: core.Check):
     if pool.snapshot() != snap0:
         ctx.fail({"call": "operator", "kind": "operand-overwritten"}, {"stream": "all", "pool": pool.desc},
                  "an operand p-box was modified in place by an arithmetic call")
+
+
+def escalated(ctx, pool):
+    import warnings
+    C, P, O = _repo()
+    fns = {"add": operator.add, "sub": operator.sub, "mul": operator.mul, "div": operator.truediv, "pow": operator.pow}
+    cls = [("pos", "pos"), ("str", "str2"), ("pos", "str"), ("str", "pos"), ("neg", "t0lo")] if pool.sign else []
+    pairs = [(pool.sign[a], pool.sign[b], a, b) for a, b in cls] or [(pool.pairs[0][0], pool.pairs[0][1], "pos", "pos")]
+    outer_codes = ["f", "p", "i"]
+    k = 0
+    for (xi, yi, ca, cb) in pairs:
+        x, y = pool.box[xi], pool.box[yi]
+        for op in BARE:
+            for code in KNOWN + ["u0", "u4", "u5"]:
+                k += 1
+                outer = outer_codes[k % 3]
+
+                def scenario():
+                    log = {}
+                    with C.dependency(outer):
+                        log["before"] = C.get_current_dependency()
+                        try:
+                            with C.dependency(PYVAL[code]):
+                                log["inside"] = C.get_current_dependency()
+                                log["res"] = pool.digest(fns[op](x, y))
+                        except BaseException as e:      # noqa
+                            log["exc"] = type(e).__name__
+                        log["after"] = C.get_current_dependency()
+                        try:
+                            log["next"] = pool.digest(fns["add"](pool.box[pool.pairs[0][0]], pool.box[pool.pairs[0][1]]))
+                        except BaseException as e:      # noqa
+                            log["next"] = ("err", type(e).__name__)
+                    log["end"] = C.get_current_dependency()
+                    return log
+
+                def run_escalated():
+                    with warnings.catch_warnings():
+                        warnings.simplefilter("error")
+                        with np.errstate(all="raise"):
+                            return scenario()
+                log = contextvars.Context().run(run_escalated)
+                ctx.count(("escalated", op, code, ca, cb), True, "escalated")
+                case = {"stream": "escalated", "op": op, "code": code, "outer": outer, "x": pool.desc[xi], "y": pool.desc[yi],
+                        "log": {k2: (js_res(v) if isinstance(v, tuple) else v) for k2, v in log.items()}}
+                feat = {"call": "dependency()", "stream": "escalated", "op": op, "code": code, "xclass": ca, "yclass": cb}
+                if tok_of(log["after"]) != outer or tok_of(log["end"]) != "f" or tok_of(log["before"]) != outer:
+                    ctx.fail(dict(feat, kind="restore-escalated"), case,
+                             f"with warnings as errors: after `with dependency({PYVAL[code]!r})` ended ({log.get('exc', 'normally')}) the setting is "
+                             f"{log['after']!r}, before the block it was {outer!r}")
+                    continue
+                if "inside" in log and tok_of(log["inside"]) != code:
+                    ctx.fail(dict(feat, kind="inside-escalated"), case, "inside the block the setting is not the block's code")
+                    continue
+                ref = pool.explicit(op, xi, yi, code)
+                if "res" in log and (code in UNKNOWN or (ref[0] == "ok" and log["res"] != ref)):
+                    ctx.fail(dict(feat, kind="value-escalated"), case,
+                             f"with warnings as errors / np.errstate(all='raise') bare `{op}` under {PYVAL[code]!r} returned a value that differs from "
+                             "the one under the default settings (or a value under an unknown code)")
+                    continue
+                nref = pool.explicit("add", pool.pairs[0][0], pool.pairs[0][1], outer)
+                if log["next"] != nref and not (isinstance(log["next"], tuple) and log["next"][0] == "err"):
+                    ctx.fail(dict(feat, kind="next-escalated"), case, "arithmetic after the block no longer uses the enclosing block's code")
+    # the process-wide state is as before
+    if np.geterr() != {"divide": "warn", "over": "warn", "under": "ignore", "invalid": "warn"}:
+        ctx.notes.append("np.geterr() differs from numpy's default after the run: %r" % (np.geterr(),))
 
 
 def _gen():
